@@ -1091,8 +1091,13 @@ type IPSECKEY struct {
 func (rr *IPSECKEY) String() string {
 	var gateway string
 	switch rr.GatewayType {
-	case IPSECGatewayIPv4, IPSECGatewayIPv6:
+	case IPSECGatewayIPv4:
 		gateway = rr.GatewayAddr.String()
+	case IPSECGatewayIPv6:
+		gateway = rr.GatewayAddr.String()
+		if rr.GatewayAddr.To4() != nil {
+			gateway = ipv4InIPv6Prefix + gateway
+		}
 	case IPSECGatewayHost:
 		gateway = rr.GatewayHost
 	case IPSECGatewayNone:
@@ -1120,8 +1125,13 @@ type AMTRELAY struct {
 func (rr *AMTRELAY) String() string {
 	var gateway string
 	switch rr.GatewayType & 0x7f {
-	case AMTRELAYIPv4, AMTRELAYIPv6:
+	case AMTRELAYIPv4:
 		gateway = rr.GatewayAddr.String()
+	case AMTRELAYIPv6:
+		gateway = rr.GatewayAddr.String()
+		if rr.GatewayAddr.To4() != nil {
+			gateway = ipv4InIPv6Prefix + gateway
+		}
 	case AMTRELAYHost:
 		gateway = rr.GatewayHost
 	case AMTRELAYNone:
